@@ -1,6 +1,7 @@
 package main
 
 import (
+	"runtime"
 	"hash/crc32"
 	"archive/tar"
 	"bytes"
@@ -150,6 +151,22 @@ func init() {
 		}
 		defer d.Close()
 		return observe(d, len(buf))
+	}
+	// debloadcost buf -> "ok|err alloc=<bytes>": what Load allocates for this input (runtime TotalAlloc before and after): loading
+	// reads what is IN the archive - a member of a few hundred bytes cannot make the loader produce megabytes
+	ops["debloadcost"] = func(a []string) string {
+		buf := []byte(arg(a, 0))
+		var m0, m1 runtime.MemStats
+		runtime.GC()
+		runtime.ReadMemStats(&m0)
+		d, err := deb.Load(bytes.NewReader(buf), "x.deb")
+		runtime.ReadMemStats(&m1)
+		res := "err"
+		if err == nil {
+			res = "ok"
+			d.Close()
+		}
+		return fmt.Sprintf("%s alloc=%d", res, m1.TotalAlloc-m0.TotalAlloc)
 	}
 	// debloadeof buf -> Load through an io.ReaderAt that returns io.EOF together with the last bytes
 	ops["debloadeof"] = func(a []string) string {
